@@ -825,6 +825,7 @@ type stringMap struct {
 	valueType Type
 	data      map[string]Value
 	keys      []string
+	stale     map[string]bool // deleted keys that are still listed in keys
 }
 
 func (m *stringMap) Len() int { return len(m.data) }
@@ -840,16 +841,29 @@ func (m *stringMap) Get(k Value) (Value, bool) {
 func (m *stringMap) Set(k, v Value) {
 	key := string(k.value.(stringT))
 	if _, ok := m.data[key]; !ok {
-		m.keys = append(m.keys, key)
+		if m.stale[key] {
+			delete(m.stale, key) // still listed from before its delete: do not list it twice
+		} else {
+			m.keys = append(m.keys, key)
+		}
 	}
 	m.data[key] = v.assign(m.valueType)
 }
 
 func (m *stringMap) Delete(k Value) {
-	delete(m.data, string(k.value.(stringT)))
+	key := string(k.value.(stringT))
+	_, was := m.data[key]
+	delete(m.data, key)
 	if len(m.data) >= (len(m.keys) >> 1) {
+		if was {
+			if m.stale == nil {
+				m.stale = map[string]bool{}
+			}
+			m.stale[key] = true
+		}
 		return
 	}
+	m.stale = nil
 	m.keys = maps.Keys(m.data)
 	verifOrderStrings(m.keys)
 }
@@ -895,6 +909,7 @@ type numericMap struct {
 	valueType Type
 	data      map[float64]Value
 	keys      []float64
+	stale     map[float64]bool // deleted keys that are still listed in keys
 }
 
 func newNumericMap(keyType, valueType Type, in []Value) Value {
@@ -921,16 +936,29 @@ func (m *numericMap) Get(k Value) (Value, bool) {
 func (m *numericMap) Set(k, v Value) {
 	key := k.num
 	if _, ok := m.data[key]; !ok {
-		m.keys = append(m.keys, key)
+		if m.stale[key] {
+			delete(m.stale, key) // still listed from before its delete: do not list it twice
+		} else {
+			m.keys = append(m.keys, key)
+		}
 	}
 	m.data[key] = v.assign(m.valueType)
 }
 
 func (m *numericMap) Delete(k Value) {
-	delete(m.data, k.num)
+	key := k.num
+	_, was := m.data[key]
+	delete(m.data, key)
 	if len(m.data) >= (len(m.keys) >> 1) {
+		if was {
+			if m.stale == nil {
+				m.stale = map[float64]bool{}
+			}
+			m.stale[key] = true
+		}
 		return
 	}
+	m.stale = nil
 	m.keys = maps.Keys(m.data)
 	verifOrderFloats(m.keys)
 }
